@@ -46,6 +46,61 @@ CLAIMED.update(
     }
 )
 
+CLAIMED.update(
+    {
+        "C28": (
+            "PAIR-FINALLY path query on the generator CFG (splice/restore), alias taint over every mutate_* visitor, sibling enumeration agreement, generator-exhaustion must-pass",
+            "Decides the clauses 'never changes the original syntax tree' and 'reported count equals the full enumeration' at the level of "
+            "code shape: the in-place splice in MutationOperator._generic_visit_list/_generic_visit_real_node is undone on every exit "
+            "including GeneratorExit at the yield; none of the ~75 mutate_* visitors writes, deletes or calls a mutating method through its "
+            "node parameter or an alias of a part of it; mutation_count, _select_mutations and _generate_all_mutations enumerate the same "
+            "unfiltered expression over self.operators; regenerated operator generators are exhausted before the next mutation is applied. "
+            "That every mutant differs only at its mutated nodes, and sampling/reordering correctness, are value-level and not decided.",
+            "Trusts the CFG builder; alias analysis is flow-insensitive within one visitor (names only).",
+            "DESIGN.md §3 C28",
+        ),
+        "C19": (
+            "FIELD-COMPLETE on statement rebuilds, must-pass path queries in the liveness pass and the writer, EXHAUSTIVE renderer arms, who-may-remove on statement.assertions",
+            "Decides that no step on the post-processing / export path can drop an oracle by construction: every Statement rebuilt in TestCase "
+            "(clone, append_test_case_from, remove_unused_variables) carries the assertions of the statement it replaces; unused-binding removal "
+            "seeds the live set with the sources of the statement's own assertions before deciding; the writer reaches the assertion loop on "
+            "every emission path and renders each assertion (only `is not None` filtering); assertion_to_cst has a non-None arm for every "
+            "concrete Assertion class; statement.assertions is shrunk only inside assertion generation / minimisation. "
+            "Whether a minimiser removes a whole asserted statement is C22's clause.",
+            "Trusts the CFG builder; the allow-list of assertion removers is enumerated in sa/checks/c19.py with one reason each.",
+            "DESIGN.md §3 C19",
+        ),
+    }
+)
+
+CLAIMED.update(
+    {
+        "C10": (
+            "TYPE-MEMBER on declared dict[int,..] fields, sibling agreement (same helper / identical arguments / same fields read), zero-test shape, guarded denominators, GUARD-DOM of range assertions over cache writes",
+            "Decides that the sibling computations of 'covered' agree by construction: no tuple-in-dict[int,...] membership (the always-false "
+            "test that made the suite verdict disagree with a zero fitness); compute_fitness / compute_is_covered of every fitness function run "
+            "the same execution helper, pass identical arguments to the paired metric functions and read the same trace fields; exclusion "
+            "parameters guard the like-named distance map; every decision on a branch-distance value is an equality with 0.0; every division "
+            "in the metric functions is guarded; every value written to the fitness / coverage cache is dominated by the finite/range assertion; "
+            "normalise rejects negatives and maps inf to 1.0. Numerical equality fitness==0 <=> covered for arbitrary traces is not decided.",
+            "Trusts declared annotations of ExecutionTrace and the CFG builder.",
+            "DESIGN.md §3 C10",
+        ),
+        "C12": (
+            "dirty-flag typestate: must-pass path queries (write -> changed=True; changed -> invalidate-all -> recompute -> clear), who-may-clear, MUST-USE of change-reporting results, key-guarantee path query in _check_cache",
+            "Decides the dirty-flag discipline that makes cached values fresh: on a changed chromosome _check_cache clears every value map "
+            "before recomputing and clears the flag only afterwards; invalidate_cache clears every *_cache attribute and clone copies every "
+            "field; each cache getter is dominated by _check_cache for its key and every comp-free path through _check_cache has established "
+            "`only in cache`; execution results are reused only when neither changed nor missing, stored before the flag is cleared, and the "
+            "suite runner invalidates the test case's own cache; every writer of a chromosome's tests (suite methods, crossover, mutation "
+            "operators) reaches changed=True; results of change-reporting operations are never discarded; only enumerated functions clear "
+            "the flag. Interleavings on shared/cloned objects are not decided.",
+            "Trusts the CFG builder; the family of change-reporting operations is computed from `-> bool` annotations of TestFactory / TestCaseMutation.",
+            "DESIGN.md §3 C12",
+        ),
+    }
+)
+
 NOT_APPLICABLE: dict[str, str] = {
     "C06": "Correctness of the post-dominator/CDG construction on every code object is functional correctness of a graph "
     "algorithm; no shape of the code implies it and no sound static argument in reach bounds 'all code objects'.",
